@@ -913,6 +913,12 @@ def run_flat(case, ctx, teneva):
     N = int(np.prod(n))
     f = int(rng.integers(4))
     arg = [n, np.array(n), tuple(n), [float(x) for x in n]][f]
+    if f == 1 and rng.random() < 0.6:
+        # mode sizes stored in the narrowest integer dtype that holds them
+        fits = [dt for dt in (np.int8, np.uint8, np.int16, np.uint16, np.int32)
+            if max(n) <= np.iinfo(dt).max]
+        arg = np.array(n, dtype=fits[int(rng.integers(min(3, len(fits))))])
+        ctx.event('flat-grid-sizes-dtype:' + arg.dtype.name)
     G = teneva.grid_flat(arg)
     j = np.arange(N)
     exp = np.empty((N, d), dtype=int)
